@@ -67,6 +67,9 @@ def main(run):
             f = run.prove if n <= 4 else run.prove_parallel
             f(f"linear[n={n},size={size},{gap},b={budget}]", E.sc_linear_env, {"n": n, "size": size, "gap": gap, "budget": budget}, pkg=pkg)
         run.prove(f"reset[n={n},{gap}]", E.sc_linear_reset, {"n": n, "gap": gap}, pkg=pkg)
+    # the mask was queried in an arbitrary state before reset (a wrapper-side copy of it must not survive the reset)
+    run.prove("reset.asked_before[n=3]", E.sc_linear_reset, {"n": 3, "gap": "l1_norm", "asked_before": True}, pkg=pkg)
+    run.prove("reset.asked_before[n=4]", E.sc_linear_reset, {"n": 4, "gap": "l1_norm", "asked_before": True}, pkg=pkg)
     # hidden games of ANY class (no superadditivity assumption): the observation clause must not depend on the class
     run.prove("linear.any_class[n=3,size=2]", E.sc_linear_env, {"n": 3, "size": 2, "gap": "l1_norm", "cls": None}, pkg=pkg)
     # consecutive steps with no mask query in between (a step must not depend on the caller having asked for the mask)
